@@ -1,0 +1,14 @@
+//go:build verif
+// +build verif
+
+package consensus
+
+import "github.com/LemoFoundationLtd/lemochain-core/common"
+
+// VerifLastSig reads Confirmer.lastSig (height and hash of the last block this node signed). Read-only,
+// used by the C03 verification harness as an observable of TryConfirm / SetLastSig.
+func (dp *DPoVP) VerifLastSig() (uint32, common.Hash) {
+	dp.confirmer.lastSigLock.Lock()
+	defer dp.confirmer.lastSigLock.Unlock()
+	return dp.confirmer.lastSig.Height, dp.confirmer.lastSig.Hash
+}
